@@ -194,9 +194,20 @@ contract(T, '_get_subitems', variant='array', props=['C01'],
         ('pieces-list-rows-of-their-part', 'all(all(0 <= dvals(out)[j][r] and dvals(out)[j][r] < bounds[U[j] + 1] - bounds[U[j]] and any(item[k] == bounds[U[j]] + dvals(out)[j][r] for k in range(len(item))) for r in range(len(dvals(out)[j]))) for j in range(t))'),
         ('pieces-increasing', 'all(all(dvals(out)[j][a] < dvals(out)[j][b] for a in range(len(dvals(out)[j])) for b in range(a + 1, len(dvals(out)[j]))) for j in range(t))'),
         ('rows-of-parts-done-are-listed', 'all(implies(any(U[j] == chunks[k] for j in range(t)), any(U[j] == chunks[k] and any(bounds[U[j]] + dvals(out)[j][r] == item[k] for r in range(len(dvals(out)[j]))) for j in range(t))) for k in range(len(item)))')]}},
-    cuts=[('out.append((chunk', 'new-piece-lists-the-rows-of-its-part', 'all(implies(chunks[k] == chunk, any(bounds[chunk] + dvals(out)[len(dvals(out)) - 1][r] == item[k] for r in range(len(dvals(out)[len(dvals(out)) - 1])))) for k in range(len(item)))'),
+    cuts=[('out.append((chunk', 'new-piece-appended', 'len(dkeys(out)) == t + 1 and len(dvals(out)) == t + 1 and dkeys(out)[t] == chunk'),
+          ('out.append((chunk', 'new-piece-offsets-inside-the-part', 'all(0 <= dvals(out)[t][r] and dvals(out)[t][r] < bounds[chunk + 1] - bounds[chunk] for r in range(len(dvals(out)[t])))'),
+          ('out.append((chunk', 'new-piece-holds-requested-rows-of-this-part', 'all(any(item[k] == bounds[chunk] + dvals(out)[t][r] for k in range(len(item))) for r in range(len(dvals(out)[t])))'),
+          ('out.append((chunk', 'new-piece-increasing', 'all(dvals(out)[t][a] < dvals(out)[t][b] for a in range(len(dvals(out)[t])) for b in range(a + 1, len(dvals(out)[t])))'),
+          ('out.append((chunk', 'older-pieces-untouched', 'all(dkeys(out)[j] == U[j] for j in range(t))'),
+          ('out.append((chunk', 'new-piece-lists-the-rows-of-its-part', 'all(implies(chunks[k] == chunk, any(bounds[chunk] + dvals(out)[len(dvals(out)) - 1][r] == item[k] for r in range(len(dvals(out)[len(dvals(out)) - 1])))) for k in range(len(item)))'),
           ('chunks = _find_chunks', 'every-row-lies-in-its-chunk', 'all(0 <= chunks[k] and chunks[k] + 1 < len(bounds) and bounds[chunks[k]] <= item[k] and item[k] < bounds[chunks[k] + 1] for k in range(len(item)))')],
-    using={'rows-of-parts-done-are-listed': ['rows-of-parts-done-are-listed', 'one-piece-per-part-so-far', 'new-piece-lists-the-rows-of-its-part']},
+    using={'rows-of-parts-done-are-listed': ['rows-of-parts-done-are-listed', 'one-piece-per-part-so-far', 'new-piece-lists-the-rows-of-its-part'],
+           'new-piece-appended': ['one-piece-per-part-so-far'],
+           'new-piece-offsets-inside-the-part': ['one-piece-per-part-so-far', 'new-piece-appended', 'theory:index', 'theory:elementwise', 'theory:slice', 'unpack-length', 'every-row-lies-in-its-chunk', 'theory:np.unique'],
+           'new-piece-holds-requested-rows-of-this-part': ['one-piece-per-part-so-far', 'new-piece-appended', 'theory:index', 'theory:elementwise', 'theory:slice', 'unpack-length'],
+           'new-piece-increasing': ['one-piece-per-part-so-far', 'new-piece-appended', 'theory:index', 'theory:elementwise', 'rows-increasing'],
+           'pieces-list-rows-of-their-part': ['pieces-list-rows-of-their-part', 'one-piece-per-part-so-far', 'new-piece-appended', 'new-piece-offsets-inside-the-part', 'new-piece-holds-requested-rows-of-this-part'],
+           'pieces-increasing': ['pieces-increasing', 'one-piece-per-part-so-far', 'new-piece-appended', 'new-piece-increasing']},
     ensures=[('parts-in-increasing-order-and-valid', 'len(%s) == len(%s) and all(0 <= %s[j] and %s[j] + 1 < len(bounds) for j in range(len(%s))) and all(%s[a] < %s[b] for a in range(len(%s)) for b in range(a + 1, len(%s)))' % (_PK, _PV, _PK, _PK, _PK, _PK, _PK, _PK, _PK)),
              ('pieces-list-requested-rows-of-their-part', 'all(all(0 <= %s[j][r] and %s[j][r] < bounds[%s[j] + 1] - bounds[%s[j]] and any(item[k] == bounds[%s[j]] + %s[j][r] for k in range(len(item))) for r in range(len(%s[j]))) for j in range(len(%s)))' % (_PV, _PV, _PK, _PK, _PK, _PV, _PV, _PK)),
              ('pieces-increasing', 'all(all(%s[j][a] < %s[j][b] for a in range(len(%s[j])) for b in range(a + 1, len(%s[j]))) for j in range(len(%s)))' % (_PV, _PV, _PV, _PV, _PK)),
